@@ -763,6 +763,8 @@ fn check_composition(
         | (SecondaryDefinition::BinaryLeftToRight, SecondaryDefinition::EndSideEffect)
         | (SecondaryDefinition::BinaryLeftToRight, SecondaryDefinition::BinaryLeftToRight)
         | (SecondaryDefinition::BinaryLeftToRight, SecondaryDefinition::OptionalBinaryLeftToRight)
+        | (SecondaryDefinition::BinaryLeftToRight, SecondaryDefinition::UnarySuffix)
+        | (SecondaryDefinition::OptionalBinaryLeftToRight, SecondaryDefinition::UnarySuffix)
         | (SecondaryDefinition::OptionalBinaryLeftToRight, SecondaryDefinition::BinaryLeftToRight)
         | (SecondaryDefinition::OptionalBinaryLeftToRight, SecondaryDefinition::OptionalBinaryLeftToRight)
         | (SecondaryDefinition::UnaryPrefix, SecondaryDefinition::None)
@@ -770,6 +772,8 @@ fn check_composition(
         | (SecondaryDefinition::UnaryPrefix, SecondaryDefinition::EndGrouping)
         | (SecondaryDefinition::UnaryPrefix, SecondaryDefinition::EndSideEffect)
         | (SecondaryDefinition::UnaryPrefix, SecondaryDefinition::BinaryLeftToRight)
+        | (SecondaryDefinition::UnaryPrefix, SecondaryDefinition::OptionalBinaryLeftToRight)
+        | (SecondaryDefinition::UnaryPrefix, SecondaryDefinition::UnarySuffix)
         | (SecondaryDefinition::UnarySuffix, SecondaryDefinition::Value)
         | (SecondaryDefinition::UnarySuffix, SecondaryDefinition::Identifier)
         | (SecondaryDefinition::UnarySuffix, SecondaryDefinition::StartGrouping)
@@ -891,7 +895,10 @@ pub fn parse(lex_tokens: &Vec<LexerToken>) -> Result<ParseResult, CompilerError>
         // except white space and annotations after an operator that is still waiting for its right operand
         // those create no node, the operator's assumed right would be left dangling or picked up by an unrelated node
         let waiting_for_operand = match previous_second_def {
-            SecondaryDefinition::BinaryLeftToRight | SecondaryDefinition::BinaryRightToLeft | SecondaryDefinition::UnaryPrefix => true,
+            SecondaryDefinition::BinaryLeftToRight
+            | SecondaryDefinition::BinaryRightToLeft
+            | SecondaryDefinition::OptionalBinaryLeftToRight
+            | SecondaryDefinition::UnaryPrefix => true,
             _ => false,
         };
         let is_trivia = match secondary_definition {
